@@ -125,10 +125,10 @@ impl<Octs: Octets> Message<Octs> {
                 Ok(Message::Keepalive(
                         KeepaliveMessage::from_octets(octets)?
                 )),
-            MsgType::RouteRefresh => {
-                debug!("Unimplemented BGP message type ROUTEREFRESH");
-                Err(ParseError::Unsupported)
-            }
+            MsgType::RouteRefresh =>
+                Ok(Message::RouteRefresh(
+                    RouteRefreshMessage::from_octets(octets)?
+                )),
             MsgType::Unimplemented(t) => {
                 debug!("Unimplemented BGP message type {t}");
                 Err(ParseError::Unsupported)
